@@ -16,7 +16,7 @@ CLAIMED = {
    note="Bounds max_iter<=2 quick / <=4 thorough. Outside: panics/hangs inside the numeric components for extreme data; wall clock. Stubs: Timers methods, RandomState::new, barrier search cut to 3 evaluations." + _TB, design="DESIGN.md §3 C04, §6"),
  "C05": dict(text=_KANI + "Decides two mechanisms behind 'equivalent formulations agree': a full symmetric P is reduced to the canonical upper triangle and a triu P is taken as is (CscMatrix::to_triu / is_triu, all 2x2 patterns, symbolic values); and the equilibrated internal data are exactly the recorded scaling c D P D, E A D, c D q, E b of the user's data (GF(13), incl. the scalar rectification of second-order cones), so equilibration on/off present the same problem.",
    note="Cone collapsing (split/merged nonnegative cones) is NOT decided (Vec<enum> output: intractable, DESIGN 6.2.15). Everything else in C05 (permutations, scaling, backends, threads, concurrency, repeatability) compares end-to-end floating-point runs: NOT decided." + _TB, design="DESIGN.md §3 C05, §6"),
- "C07": dict(text=_KANI + 'Decides that the tau/kappa step length lies in [0,1] and is the exact distance to the boundary, that NN/SOC step lengths lie in [0, alpha_max] for every f64, and - by running the real main loop with a POISONED iteration budget - that nothing but the termination check reads the remaining budget and every step taken under dual scaling was the one last accepted by the barrier test.',
+ "C07": dict(text=_KANI + 'Decides that the starting iterate produced by the initial shift is strictly inside the nonnegative cone for every f64 input up to 1e100 (also when the violation is 2^53 times the target margin), that the tau/kappa step length lies in [0,1] and is the exact distance to the boundary, that NN/SOC step lengths lie in [0, alpha_max] for every f64, and - by running the real main loop with a POISONED iteration budget - that nothing but the termination check reads the remaining budget and every step taken under dual scaling was the one last accepted by the barrier test.',
    note="Reduced scope. Outside: strict interiority after a step for SOC/exp/pow/PSD; tau',kappa'>0 after the step (two roundings of a product). The clock is a model validated natively against the real Timers (tv_timers)." + _TB, design="DESIGN.md §3 C07, §6"),
  "C08": dict(text=_KANI + "Decides the public update traits that update_P/q/A/b delegate to, for every argument form: accepted updates write value*scale*c at the true coordinates (exact over GF(13)); wrong lengths, out-of-range indices and pattern mismatches are errors that leave whole-vector/matrix targets untouched; empty updates are no-ops; cached norms are recomputed; and the real DirectLDLKKTSolver::update_P/update_A/update push every new value into the LDL engine's own copy (mirror engine) while the solver's KKT copy keeps an unregularised diagonal.",
    note='Outside: check_data_update_allowed on a live DefaultSolver (constructing one needs AMD); end-to-end agreement of the following solve.' + _TB, design="DESIGN.md §3 C08, §6"),
@@ -28,7 +28,7 @@ CLAIMED = {
    note='n=2; enumerated P patterns, A patterns and cone layouts incl. [SOC5], [SOC2,SOC5], symbolic values. Sparse layouts go through the hook assemble_kkt_matrix_soc_store (validated natively by tv_kkt). Outside: GenPow expansion; the real LDL engines.' + _TB, design="DESIGN.md §3 C11, §6"),
  "C12": dict(text=_KANI + "Decides the QDLDL unit chain: permutation validation/inversion, symmetric permutation map, elimination tree + factorisation (L D L' = A exactly over GF(13) for all values, Ok iff all leading minors nonzero), triangular solves, refactor = fresh factor, regularisation/inertia logic at f64.",
    note="n<=3 quick / n<=4 thorough; patterns enumerated, values/perms symbolic. Outside: backward stability, AMD." + _TB, design="DESIGN.md §3 C12, §6"),
- "C13": dict(text=_KANI + "Decides over GF(7) (GF(13) thorough), for all field values, operator identities of the NN and SOC scalings as computed by the real generic code: W^-1 W = W W^-1 = I, W symmetric, mul_W's alpha/beta form, Hs = W'W = the KKT block (dense, and the sparse expansion eta^2(D+uu'-vv') in dimension 5), w normalised and eta^4 = res(s)/res(z), Jordan product laws, affine and corrector terms; NN: Hs z = s, lambda^2 = s o z, W^-1 W = I, the ds offset.",
+ "C13": dict(text=_KANI + "Decides over GF(7) (GF(13) thorough), for all field values, operator identities of the NN and SOC scalings as computed by the real generic code: W^-1 W = W W^-1 = I, W symmetric, mul_W's alpha/beta form, Hs = W'W = the KKT block (dense, and the sparse expansion eta^2(D+uu'-vv') in dimension 5), w normalised and eta^4 = res(s)/res(z), set_identity_scaling resets the whole scaling state incl. the sparse expansion from arbitrary leftovers, Jordan product laws, affine and corrector terms; NN: Hs z = s, lambda^2 = s o z, W^-1 W = I, the ds offset.",
    note="SOC dim 3/5, NN dim 2. Outside: the SOC Nesterov-Todd identity (W'W) z = s itself (depends on a coherent choice of nested square roots, no meaning in a field: DESIGN 6.6); floating-point conditioning; PSD (LAPACK)." + _TB, design="DESIGN.md §3 C13, §6"),
  "C14": dict(text=_KANI + "Runs the REAL generic exp/pow cone code at first-order jets over GF(13) (exact differentiation; ln/powf uninterpreted with their derivative rules) and decides that the stored gradient is the derivative of the dual barrier and the stored Hessian the derivative of the gradient, that the dual-scaling fallback is mu*H, and that the explicit 3x3 Cholesky factorisation used by the third-order correction satisfies L L' = H (fails only for a vanishing leading minor).",
    note="Outside: higher_correction == -1/2 third derivative (attempted in five formulations, SAT does not finish within an hour: DESIGN 6.2.19), membership predicates, conjugacy of gradient_primal, primal-dual scaling matrix, unit_initialization, generalised power cone." + _TB, design="DESIGN.md §3 C14, §6"),
